@@ -110,6 +110,14 @@ class Violation(Exception):
         self.msg = msg
 
 
+def _raised_by_harness(e):
+    """True when every traceback frame below the last vlib frame is free of the packages through which library code can run."""
+    tb = traceback.extract_tb(e.__traceback__)
+    names = [fr.filename.replace("\\", "/") for fr in tb]
+    last = max([i for i, fn in enumerate(names) if "/vlib/" in fn] or [-1])
+    return not any(("/%s/" % pkg) in fn for fn in names[last + 1:] for pkg in ("xrspatial", "dask", "numba", "xarray", "pandas", "distributed"))
+
+
 def exc_bucket(e, prefix="exception"):
     """Bucket an unexpected exception by (type, innermost xrspatial frame)."""
     tb = traceback.extract_tb(e.__traceback__)
@@ -215,7 +223,12 @@ def run_body(body, case, ctx):
     except (KeyboardInterrupt, SystemExit, MemoryError, HarnessError):
         raise
     except Exception as e:  # noqa: an exception inside the domain is a failure of the property
-        r = R().fail(exc_bucket(e), "%s: %s\n%s" % (type(e).__name__, e, traceback.format_exc()[-1200:]))
+        b = exc_bucket(e)
+        if b.endswith("@?") and _raised_by_harness(e):
+            # no frame of the library under test (nor of dask / numba / xarray evaluating its lazy result) below the harness frames:
+            # the harness itself (generator, decoder, oracle) failed, not the property
+            raise HarnessError("harness exception outside xrspatial: %s: %s\n%s" % (type(e).__name__, e, traceback.format_exc()[-1200:]))
+        r = R().fail(b, "%s: %s\n%s" % (type(e).__name__, e, traceback.format_exc()[-1200:]))
     return r
 
 
